@@ -35,6 +35,16 @@ def uniq_scope(ctx: Ctx) -> List[Ob]:
             for lp in inner:
                 used = {x.id for x in ast.walk(lp.iter) if isinstance(x, ast.Name)}
                 ok = bool(used & ov)
+                # ... and it is the raw list of all siblings, not a (kind-aware) query
+                raw = isinstance(lp.iter, ast.Attribute) and lp.iter.attr in ("_children", "children")
+                if ok and not raw:
+                    kinded = [g for c_ in ast.walk(lp.iter) if isinstance(c_, ast.Call) for g, _ in ctx.env.callees(f, c_)
+                              if {"kind", "any_kind"} & set(g.param_names())]
+                    if kinded:
+                        obs.append(ctx.ob("UNIQ-SCOPE", ["C03"], f, f"uniqueness scan covers all siblings ({f.qualname})", lp, False,
+                                          f"`{norm(lp.iter)}` resolves to {kinded[0].qualname}, which only returns siblings of the same kind in a typed tree: "
+                                          "a conflicting sibling of another kind is not seen"))
+                        continue
                 obs.append(ctx.ob("UNIQ-SCOPE", ["C03"], f, f"uniqueness scan inside a loop over several nodes ({f.qualname})", lp, ok,
                                   "" if ok else f"the scan iterates `{norm(lp.iter)}`, which does not depend on the outer loop variable "
                                   f"{sorted(ov)}: only one node's siblings are checked, a conflict at another clone's parent is accepted"))
@@ -75,6 +85,10 @@ def slot_new(ctx: Ctx) -> List[Ob]:
                         ok = True
                 if isinstance(p, ast.If) and has(f"{key} not in {base}", p.test) and any(node is x for st in p.body for x in ast.walk(st)):
                     ok = True
+                if isinstance(p, ast.If) and any(node is x for st in p.body for x in ast.walk(st)):
+                    e_ = match("$v is None", p.test)
+                    if e_ is not None and has(f"$v = {base}.get({key})", f.node, e_):
+                        ok = True
                 p = m.parent_of(p)
             obs.append(ctx.ob("SLOT-NEW", ["C02", "C03"], f, f"index slot store in {f.qualname}", node, ok,
                               "" if ok else f"`{norm(node)}` may overwrite an existing clone list: the nodes already filed under that data_id vanish from "
@@ -97,7 +111,7 @@ REC_ALLOW = {
 }
 
 
-@rule("REC-FWD", ["C04", "C05", "C07", "C17", "C01"], floor=8, section="3.6+")
+@rule("REC-FWD", ["C04", "C05", "C07", "C12", "C17", "C01"], floor=8, section="3.6+")
 def rec_fwd(ctx: Ctx) -> List[Ob]:
     """a function that calls itself (on another object or stream) passes every one of its options on explicitly; an omitted option silently falls back to its default for the inner call"""
     obs: List[Ob] = []
@@ -121,7 +135,7 @@ def rec_fwd(ctx: Ctx) -> List[Ob]:
                 a = env._actual_for(w, c, p, bound=bound)
                 ok = a is not None or (w.qualname, p) in REC_ALLOW
                 n = w.name
-                props = ["C05"] if n in ("save", "load") else ["C17"] if "dot" in n or "mermaid" in n or w.module in ("rdf", "dot", "mermaid") \
+                props = ["C05", "C12"] if n in ("save", "load") else ["C17"] if "dot" in n or "mermaid" in n or w.module in ("rdf", "dot", "mermaid") \
                     else ["C07"] if n in ("_add_from", "copy_to") else ["C04", "C01"]
                 obs.append(ctx.ob("REC-FWD", props, w, f"recursive call of {w.qualname} passes `{p}`", c, ok,
                                   "" if ok else f"`{norm(c)}` omits `{p}`: the inner call runs with the default instead of the caller's choice"))
@@ -153,7 +167,7 @@ def move_order(ctx: Ctx) -> List[Ob]:
     return obs
 
 
-@rule("ALIAS-ARG", ["C07", "C04"], floor=2, section="3.5+")
+@rule("ALIAS-ARG", ["C07", "C04", "C11"], floor=2, section="3.5+")
 def alias_arg(ctx: Ctx) -> List[Ob]:
     """no node is constructed with another node's mutable container (meta dict, child list) as argument: copies get their own containers"""
     obs: List[Ob] = []
@@ -167,7 +181,7 @@ def alias_arg(ctx: Ctx) -> List[Ob]:
                 fl = {fld for _r, fld in env.fields(f, a)}
                 if fl & {"_meta", "_children"}:
                     bad = (a, fl)
-            obs.append(ctx.ob("ALIAS-ARG", ["C07", "C04"], f, f"node construction in {f.qualname}: {norm(c.func)}(...)", c, bad is None,
+            obs.append(ctx.ob("ALIAS-ARG", ["C07", "C04", "C11"], f, f"node construction in {f.qualname}: {norm(c.func)}(...)", c, bad is None,
                               "" if bad is None else f"`{norm(bad[0])}` hands the source's {sorted(bad[1])} container to the new node: "
                               "a later in-place metadata edit on either side shows on the other"))
     return obs
@@ -181,4 +195,87 @@ def pred_norm(ctx: Ctx) -> List[Ob]:
     ok = has("issubclass($r, IterationControl)", f.node) or has("isinstance($r, type)", f.node)
     obs.append(ctx.ob("PRED-NORM", ["C08"], f, "a returned control class is turned into an instance", None, ok,
                       "" if ok else "`return SkipBranch` (the class) matches no isinstance() case of filter()/copy(): the verdict is silently ignored"))
+    return obs
+
+
+@rule("GUARD-TREE", ["C01"], floor=1, section="3.1+")
+def guard_tree(ctx: Ctx) -> List[Ob]:
+    """re-parenting stays inside one tree: every write of a registered node's _parent is dominated (on every path, for node and tree targets alike) by a refusal that compares the target's tree with self's tree"""
+    obs: List[Ob] = []
+    for f in ctx.model.all_funcs():
+        if f.name == "__init__" or f.qualname == "Tree._unregister":
+            continue
+        for e, node in ctx.fx.direct_nodes[f]:
+            if not (e.op == "rebind" and e.field == "_parent" and e.root != "fresh"):
+                continue
+            cfg = ctx.cfg(f)
+            t = cfg.stmt_node_of(node, ctx.model.parent_of)
+
+            def tree_guard(n) -> bool:
+                if n.kind != "test":
+                    return False
+                pi = ctx.model.parent_of(n.ast)
+                if not isinstance(pi, ast.If) or not any(isinstance(x, ast.Raise) for st in pi.body for x in ast.walk(st)):
+                    return False
+                txt = norm(n.ast)
+                return "._tree is not self._tree" in txt or "self._tree is not " in txt and "._tree" in txt.split("self._tree is not ")[1]
+
+            ok = cfg.dominated_by(t, tree_guard)
+            obs.append(ctx.ob("GUARD-TREE", ["C01"], f, f"{norm(node)} is preceded by a same-tree refusal on every path", node, ok,
+                              "" if ok else "a node can be moved below a node of another tree: it stays registered (and counted) in the old tree "
+                              "and is reachable but uncounted in the new one"))
+    return obs
+
+
+@rule("DATA-IS", ["C02", "C04"], floor=1, section="3.2+")
+def data_is(ctx: Ctx) -> List[Ob]:
+    """set_data recognises 'same data object' by identity: an equal-but-distinct data object (different id) is a change and must be applied"""
+    obs: List[Ob] = []
+    f = ctx.model.func("Node.set_data")
+    cmps = [n for n in iter_own(f.node) if isinstance(n, ast.Compare) and len(n.ops) == 1 and
+            {norm(n.left), norm(n.comparators[0])} == {"data", "self._data"}]
+    if not cmps:
+        obs.append(ctx.ob("DATA-IS", ["C02", "C04"], f, "set_data compares the new data with the current data object", None, False, "test not found"))
+    for c in cmps:
+        ok = isinstance(c.ops[0], (ast.Is, ast.IsNot))
+        obs.append(ctx.ob("DATA-IS", ["C02", "C04"], f, "set_data: `data is self._data` (identity) decides that nothing changes", c, ok,
+                          "" if ok else "`==` treats an equal-comparing new object as unchanged: the node keeps its old data and stale data_id"))
+    return obs
+
+
+@rule("SORT-GUARD", ["C04"], floor=1, section="3.4+")
+def sort_guard(ctx: Ctx) -> List[Ob]:
+    """sort_children returns early only when there is nothing to do at this node *and below*: a node with a single child still recurses when deep is set"""
+    obs: List[Ob] = []
+    f = ctx.model.func("Node.sort_children")
+    e = one("$cl = self._children", f.node)
+    cl = e[1]["$cl"] if e else "self._children"
+    guards = [n for n in f.body if isinstance(n, ast.If) and n.body and isinstance(n.body[-1], ast.Return)]
+    ok = bool(guards)
+    for g in guards:
+        accepted = [f"not {cl} or len({cl}) == 1 and (not deep)", f"not {cl}", f"{cl} is None", f"not {cl} or (len({cl}) == 1 and (not deep))",
+                    f"not {cl} or len({cl}) < 2 and (not deep)", f"len({cl}) == 0"]
+        if not any(match(a, g.test) is not None for a in accepted):
+            ok = False
+    obs.append(ctx.ob("SORT-GUARD", ["C04"], f, "the early return of sort_children keeps descending below an only child when deep is set", None, ok,
+                      "" if ok else f"`{norm(guards[0].test) if guards else '?'}`: a deep sort stops at every node that has exactly one child"))
+    return obs
+
+
+@rule("ITER-NORET", ["C06"], floor=1, section="3.8+")
+def iter_noret(ctx: Ctx) -> List[Ob]:
+    """Node.iterator has no early exit: the start node (add_self) is emitted for leaves too, exactly as visit() calls back for it"""
+    obs: List[Ob] = []
+    f = ctx.model.func("Node.iterator")
+    rets = [n for n in iter_own(f.node, into_lambda=False) if isinstance(n, ast.Return)]
+    obs.append(ctx.ob("ITER-NORET", ["C06"], f, "iterator() has no early return", rets[0] if rets else None, not rets,
+                      "" if not rets else f"`{norm(ctx.model.parent_of(rets[0]))[:80]}`: a start node without children is not yielded although add_self is set"))
+    g = ctx.model.func("Node.visit")
+    # in visit() every `return` lies inside the try (after a callback) or is the handler's
+    tr = [n for n in iter_own(g.node) if isinstance(n, ast.Try) and any(h.type is not None and norm(h.type) == "StopTraversal" for h in n.handlers)]
+    early = []
+    if tr:
+        inside = {id(x) for x in ast.walk(tr[0])}
+        early = [n for n in iter_own(g.node) if isinstance(n, ast.Return) and id(n) not in inside]
+    obs.append(ctx.ob("ITER-NORET", ["C06"], g, "visit() has no return before the traversal starts", None, not early, "" if not early else "early exit skips the start node"))
     return obs
